@@ -25,7 +25,7 @@
                            a started batch b and [produced (log of b) (keys of b) (key of cl) o]. *)
 From Coq Require Import List Arith NArith Bool.
 Import ListNotations.
-Require Import Aiuti.Case_Batcher Aiuti.Case_Batcher_Sound Aiuti.Case_Batcher_Basic Aiuti.BatcherSim Aiuti.Case_Batcher_C04 Aiuti.Case_Batcher_Sound04 Aiuti.Batcher Aiuti.BatcherLimits Aiuti.BatcherTime Aiuti.BatcherInv Aiuti.BatcherProps.
+Require Import Aiuti.Case_Batcher Aiuti.Case_Batcher_Sound Aiuti.Case_Batcher_Basic Aiuti.BatcherSim Aiuti.Case_Batcher_C04 Aiuti.Case_Batcher_Full Aiuti.Case_Batcher_Sound04 Aiuti.Batcher Aiuti.BatcherLimits Aiuti.BatcherTime Aiuti.BatcherInv Aiuti.BatcherProps.
 
 (* Each caller gets exactly its own outcome.  If the trace says caller i completed
    with outcome o, then caller i's key is the key of its call, the item that carries
@@ -119,13 +119,28 @@ Print Assumptions monitor_basic_sound.
    last call) — on event lists without Chain events, for batch_timeout > 0: the monitor
    accepts the canonical trace of the model together with the model's waiting list, for
    every configuration and every such event list.  Proof: Case_Batcher_C04.v, on top of the
-   simulation of Case_Batcher_C11.v.  PARTIAL only in that Chain events are excluded. *)
+   simulation of Case_Batcher_C11.v.  Chain events are excluded here; [monitor_complete] below has them. *)
 Theorem monitor_complete_nochain :
   forall c evs, cfg_ok c -> (0 < c_bt c)%N -> Forall ev_ok evs ->
   forallb (fun e => negb (is_chain e)) evs = true ->
   ok_C04 (BCase c evs (map canon (fst (run c evs))) (waiting_callers (snd (run c evs)))) = true.
 Proof. exact ok_C04_complete. Qed.
 Print Assumptions monitor_complete_nochain.
+
+(* COMPLETENESS of the FULL monitor ok_C04 on ALL event lists, Chain events included
+   (batch_timeout > 0): tasks that make several calls one after the other — answered at once
+   inside the window, or resumed by a batch and calling again in the same loop iteration —
+   are covered: the monitor accepts the canonical trace of the model together with the model's
+   waiting list, for every configuration and every event list.  In particular the late
+   answers, the immediate answers of the calls made by resumed tasks (checked against the
+   latest outcome produced for the key, including the outcomes produced in the same step),
+   and the idle rule (a resumed task that calls again resets the idle time) are what the
+   model does.  Proof: Case_Batcher_Full.v. *)
+Theorem monitor_complete :
+  forall c evs, cfg_ok c -> (0 < c_bt c)%N -> Forall ev_ok evs ->
+  ok_C04 (BCase c evs (map canon (fst (run c evs))) (waiting_callers (snd (run c evs)))) = true.
+Proof. exact ok_C04_complete_all. Qed.
+Print Assumptions monitor_complete.
 
 (* Model-free SOUNDNESS of the state-dependent conjuncts of ok_C04 (no model involved: script and
    observed trace only; [m] below is the monitor state before the step, computed from them):
@@ -136,14 +151,27 @@ Print Assumptions monitor_complete_nochain.
    yielded value / Exception; yield of a key the batch does not owe: ProtocolErr; raise: that
    exception; return: Missing).  So an accepted trace never gives a waiting caller what was
    yielded for another key, and never completes a caller without cause.
-   PARTIAL: immediate answers (a call answered in its own step) are checked by the monitor
-   against the latest outcome produced for the key (imm_ok04) — not restated here; that a call is
-   answered at once only inside the retention window is ok_C11's conjunct. *)
+   PARTIAL: this theorem is about callers that were already waiting; a call answered in the step
+   in which it was made is the subject of [monitor_sound_imm] below; WHETHER a call may be
+   answered at once (only inside the retention window) is ok_C11's conjunct, not ok_C04's. *)
 Theorem monitor_sound_late_partial :
   forall c evs observed w, ok_C04 (BCase c evs observed w) = true ->
   all_steps late_justified c (minit c) evs observed.
 Proof. exact ok_C04_sound_late. Qed.
 Print Assumptions monitor_sound_late_partial.
+
+(* ... and the immediate answers (model-free as well): if ok_C04 accepts, then at every macro step
+   every completion of a call made in that very step — a call of the step's event, or a call a
+   resumed task makes in the continuation of its answer — carries the LATEST outcome the script
+   made the batch function produce for that call's key, the outcomes produced by this step's own
+   event included ([step_last]: this step's productions in front of the earlier ones; the key is
+   the one the monitor registered for that caller id, [step_calls]).  So an accepted trace never
+   answers a call at once with a stale or foreign outcome. *)
+Theorem monitor_sound_imm :
+  forall c evs observed w, ok_C04 (BCase c evs observed w) = true ->
+  all_steps (imm_justified c) c (minit c) evs observed.
+Proof. exact ok_C04_sound_imm. Qed.
+Print Assumptions monitor_sound_imm.
 
 (* ... and the final rule: the observed waiting list is exactly the callers without an observed
    completion, and it is empty once every observed batch was ended by the script and
